@@ -1,6 +1,6 @@
 /* Model of the BPF helpers and maps used by linux-ebpf/ebpf_cgroup.c, following bpf-helpers(7):
  *   bpf_map_lookup_elem  : pointer to the value stored for key, or NULL
- *   bpf_map_update_elem  : flags 0 = BPF_ANY: create or overwrite; a full HASH map returns -E2BIG,
+ *   bpf_map_update_elem  : flags BPF_ANY/BPF_NOEXIST/BPF_EXIST as in the kernel (0: create or overwrite); a full HASH map returns -E2BIG,
  *                          a full LRU_HASH map evicts one entry (victim chosen by the solver)
  *   bpf_map_delete_elem  : 0, or -ENOENT
  *   bpf_get_current_pid_tgid : current_task->tgid << 32 | current_task->pid
@@ -56,9 +56,25 @@ void *bpf_map_lookup_elem(void *map, const void *key)
     i = find_local(key); return i < 0 ? (void *)0 : (void *)&local_v[i];
 }
 
+/* update flags (include/uapi/linux/bpf.h): BPF_ANY 0 create or update, BPF_NOEXIST 1 create only (-EEXIST if present),
+ * BPF_EXIST 2 update only (-ENOENT if absent); anything else -EINVAL */
+static long verif_flag_check(int found, __u64 flags)
+{
+    if (flags > 2) return -22;
+    if (flags == 1 && found >= 0) return -17;
+    if (flags == 2 && found < 0) return -2;
+    return 0;
+}
+
 long bpf_map_update_elem(void *map, const void *key, const void *value, __u64 flags)
 {
     int i;
+    long fr;
+    if (map == (void *)&skip_process_map) fr = verif_flag_check(find_skip(key), flags);
+    else if (map == (void *)&policy_map) fr = verif_flag_check(find_pol(key), flags);
+    else if (map == (void *)&audit_map) fr = verif_flag_check(find_audit(key), flags);
+    else fr = verif_flag_check(find_local(key), flags);
+    if (fr != 0) return fr;
     if (map == (void *)&skip_process_map) {
         i = find_skip(key); if (i < 0) i = free_slot(skip_used); if (i < 0) return -7; /* -E2BIG */
         skip_used[i] = 1; skip_k[i] = *(const sock_addr_skip_process_entry *)key; skip_v[i] = *(const sock_addr_skip_process_entry *)value; return 0;
